@@ -635,7 +635,7 @@ func (l *Linter) check(
 		}
 	}
 
-	all = l.filterErrors(all, cfg.PathConfigs(path))
+	all = l.filterErrors(all, cfg.PathConfigs(l.pathFromProjectRoot(path, project)))
 
 	for _, err := range all {
 		err.Filepath = path // Populate filename in the error
@@ -649,6 +649,23 @@ func (l *Linter) check(
 	}
 
 	return all, nil
+}
+
+// pathFromProjectRoot returns the file path relative to the root directory of the project. Glob
+// patterns in "paths" of the config file are matched to it. The path given to check() is relative
+// to the working directory so it cannot be used for the matching as-is.
+func (l *Linter) pathFromProjectRoot(path string, project *Project) string {
+	if project == nil {
+		return path
+	}
+	p := path
+	if !filepath.IsAbs(p) && l.cwd != "" {
+		p = filepath.Join(l.cwd, p)
+	}
+	if r, err := filepath.Rel(absPath(project.RootDir()), absPath(p)); err == nil {
+		return r
+	}
+	return path
 }
 
 func (l *Linter) filterErrors(errs []*Error, cfgs []PathConfig) []*Error {
